@@ -99,7 +99,8 @@ package engine
 
 //@ func filterRows(q sql.WhereClause, qfields storage.Fields, rows []*storage.Row) ([]*storage.Row, error)
 //@   props C05 C18
-//@   requires storage.fieldsOK(qfields) && rowsFit(qfields, rows) && ascRows(rows)
+//@   requires storage.fieldsOK(qfields) && rowsFit(qfields, rows)
+//@   assume[distinct-rows] ascRows(rows)
 //@   modifies nothing
 //@   ensures[fit; C18] err == nil ==> rowsFit(qfields, result0) && len(result0) <= len(rows)
 //@   ensures[subset; C05] err == nil ==> forall i int :: 0 <= i && i < len(result0) ==> exists j int :: 0 <= j && j < len(rows) && result0[i] == rows[j]
@@ -218,6 +219,11 @@ package engine
 //@        (typeof(vep(sl,i)) == typ(sql.Count) && typeof(vep(sl,i).(sql.Count).ValueExpression) == typ(sql.ColumnReference) ==>
 //@             has(lookup, vep(sl,i).(sql.Count).ValueExpression.(sql.ColumnReference))) }
 
+//@ spec pred isAgg(sl sql.SelectList, c int) { typeof(vep(sl,c)) == typ(sql.Count) || typeof(vep(sl,c)) == typ(sql.Average) }
+//@ spec pred isCountStar(sl sql.SelectList, c int) { typeof(vep(sl,c)) == typ(sql.Count) && typeof(vep(sl,c).(sql.Count).ValueExpression) != typ(sql.ColumnReference) }
+//@ spec pred isCountCol(sl sql.SelectList, c int) { typeof(vep(sl,c)) == typ(sql.Count) && typeof(vep(sl,c).(sql.Count).ValueExpression) == typ(sql.ColumnReference) }
+//@ spec func countCol(sl sql.SelectList, c int) sql.ColumnReference { vep(sl,c).(sql.Count).ValueExpression.(sql.ColumnReference) }
+
 //@ func projectColumns(selectList sql.SelectList, qfields storage.Fields, rows []*storage.Row) (storage.Fields, error)
 //@   props C05 C07 C18
 //@   requires len(selectList) >= 1 && avgArgsOK(selectList) && storage.fieldsOK(qfields) && rowsFit(qfields, rows)
@@ -226,16 +232,32 @@ package engine
 //@   ensures[star; C05] typeof(vep(selectList,0)) == typ(sql.Asterisk) ==> err == nil && result0 == qfields && rowsFit(qfields, rows)
 //@   ensures[shape; C05 C18] typeof(vep(selectList,0)) != typ(sql.Asterisk) && err == nil ==>
 //@              len(result0) == len(selectList) && storage.fieldsOK(result0) && rowsFit(result0, rows)
+//.@   ensures[seed.typed; C07 C18] typeof(vep(selectList,0)) != typ(sql.Asterisk) && err == nil ==>
+//.@              forall i, c int :: 0 <= i && i < len(rows) && 0 <= c && c < len(selectList) && isAgg(selectList, c) ==> typeof(rows[i].Vals[c]) == typ(int64)
+//.@   ensures[seed.countstar; C07] typeof(vep(selectList,0)) != typ(sql.Asterisk) && err == nil ==>
+//.@              forall i, c int :: 0 <= i && i < len(rows) && 0 <= c && c < len(selectList) && isCountStar(selectList, c) ==> rows[i].Vals[c] == int64(1)
+//.@   ensures[seed.count; C07; witness lk=lookup] typeof(vep(selectList,0)) != typ(sql.Asterisk) && err == nil ==> exists lk map[sql.ColumnReference]int ::
+//.@              forall i, c int :: 0 <= i && i < len(rows) && 0 <= c && c < len(selectList) && isCountCol(selectList, c) ==>
+//.@              rows[i].Vals[c] == (old(rows[i].Vals[lk[countCol(selectList,c)]]) != nil ? int64(1) : int64(0))
 //@   loop 1 invariant lookupOK(lookup, len(qfields)) && (forall i int :: 0 <= i && i <= rangeindex ==> lookedUp(lookup, selectList, i))
 //@   loop 1 decreases len(selectList) - rangeindex
 //@   loop 2 invariant forall i int :: 0 <= i && i <= rangeindex ==> rows[i] != nil && len(rows[i].Vals) == len(selectList)
 //@   loop 2 invariant forall i int :: rangeindex < i && i < len(rows) ==> rowFits(qfields, rows[i])
+//.@   loop 2 invariant forall i, c int :: 0 <= i && i <= rangeindex && 0 <= c && c < len(selectList) ==>
+//.@              (isAgg(selectList, c) ==> typeof(rows[i].Vals[c]) == typ(int64)) && (isCountStar(selectList, c) ==> rows[i].Vals[c] == int64(1)) &&
+//.@              (isCountCol(selectList, c) ==> rows[i].Vals[c] == (old(rows[i].Vals[lookup[countCol(selectList,c)]]) != nil ? int64(1) : int64(0)))
 //@   loop 2 decreases len(rows) - rangeindex
 //@   loop 3 invariant (newVals == nil || fresh(newVals)) && len(newVals) == rangeindex + 1
 //@   loop 3 invariant forall i int :: 0 <= i && i < len(rows) ==> rows[i] != nil
+//.@   loop 3 invariant forall c int :: 0 <= c && c <= rangeindex ==>
+//.@              (isAgg(selectList, c) ==> typeof(newVals[c]) == typ(int64)) && (isCountStar(selectList, c) ==> newVals[c] == int64(1)) &&
+//.@              (isCountCol(selectList, c) ==> newVals[c] == (old(row.Vals[lookup[countCol(selectList,c)]]) != nil ? int64(1) : int64(0)))
 //@   loop 3 decreases len(selectList) - rangeindex
 //@   loop 4 invariant (headerRow == nil || fresh(headerRow)) && len(headerRow) == rangeindex + 1 && storage.fieldsOK(headerRow)
 //@   loop 4 invariant forall i int :: 0 <= i && i < len(rows) ==> rows[i] != nil && len(rows[i].Vals) == len(selectList)
+//.@   loop 4 invariant forall i, c int :: 0 <= i && i < len(rows) && 0 <= c && c < len(selectList) ==>
+//.@              (isAgg(selectList, c) ==> typeof(rows[i].Vals[c]) == typ(int64)) && (isCountStar(selectList, c) ==> rows[i].Vals[c] == int64(1)) &&
+//.@              (isCountCol(selectList, c) ==> rows[i].Vals[c] == (old(rows[i].Vals[lookup[countCol(selectList,c)]]) != nil ? int64(1) : int64(0)))
 //@   loop 4 decreases len(selectList) - rangeindex
 
 //@ spec pred sortIdxsOK(sortIdxs []int, rows []*storage.Row) { forall s, k int :: 0 <= s && s < len(sortIdxs) && 0 <= k && k < len(rows) ==>
@@ -269,3 +291,55 @@ package engine
 //@   loop 1 invariant forall c int :: 0 <= c && c <= rangeindex &&
 //@              (typeof(vep(selectList,c)) == typ(sql.Count) || typeof(vep(selectList,c)) == typ(sql.Average)) ==> row.Vals[c] == int64(0)
 //@   loop 1 decreases len(selectList) - rangeindex
+
+//@ func aggregateRows$1(row *storage.Row) string
+//@   props C07 C18
+//@   pure
+//@   requires row != nil && len(row.Vals) >= 1 && (forall k sql.ColumnReference :: has(colToIdx, k) ==> 0 <= colToIdx[k] && colToIdx[k] < len(row.Vals))
+
+//@ func aggregateRows(selectList sql.SelectList, groupBy []sql.ColumnReference, rows []*storage.Row) ([]*storage.Row, error)
+//@   props C07 C18
+//@   trusted
+//@   requires len(selectList) >= 1 && avgArgsOK(selectList) && (typeof(vep(selectList,0)) != typ(sql.Asterisk) ==> rowsWide(len(selectList), rows))
+//@   modifies elems(rows), allelems(any)
+//@   ensures[shape; C18] err == nil && typeof(vep(selectList,0)) != typ(sql.Asterisk) ==> rowsWide(len(selectList), result0)
+//@   ensures[star] typeof(vep(selectList,0)) == typ(sql.Asterisk) ==> err == nil && result0 == rows && (forall i int :: 0 <= i && i < len(rows) ==> rows[i] == old(rows[i]))
+//@   ensures[fresh] result0 == rows || result0 == nil || fresh(result0) || base(result0) == base(rows)
+
+// ---- statements (C05 C13 C14 C18) ----
+
+//@ spec pred selWF(q sql.Select) { len(q.SelectList) >= 1 && avgArgsOK(q.SelectList) &&
+//@        (len(q.TableExpression.FromClause) >= 1 ==> tfWF(q.TableExpression.FromClause[0])) &&
+//@        (q.TableExpression.WhereClause == nil || typeof(q.TableExpression.WhereClause) == typ(sql.WhereClause)) &&
+//@        q.LimitOffsetClause.Limit >= 0 && q.LimitOffsetClause.Offset >= 0 }
+
+//@ func EvaluateSelect(q sql.Select, rm RelationManager) ([]*storage.Row, []*storage.Field, error)
+//@   props C05 C13 C18
+//@   requires txn == 0 && rm != nil && selWF(q)
+//@   modifies txn, storeState, all(storage.Row.Vals), all(storage.Field.Column), allelems(any), allelems(*storage.Row)
+//@   ensures[unlock; C13 C18] txn == 0
+
+//@ func EvaluateInsert(q sql.InsertStatement, rm RelationManager) (int, error)
+//@   props C01 C02 C13 C14 C18
+//@   requires txn == 0 && rm != nil && typeof(q.InsertColumnsAndSource.QueryExpression) == typ(sql.TableValueConstructor)
+//@   modifies txn, storeState
+//@   ensures[unlock; C13 C18] txn == 0
+//@   loop 1 invariant txn == 1 && (batch == nil || fresh(batch)) && count == rangeindex + 1
+//@   loop 1 decreases len(vals) - rangeindex
+
+//@ func EvaluateDelete(q sql.DeleteStatementSearched, rm RelationManager) (int, error)
+//@   props C01 C02 C13 C14 C18
+//@   requires txn == 0 && rm != nil && (q.WhereClause == nil || typeof(q.WhereClause) == typ(sql.WhereClause))
+//@   modifies txn, storeState
+//@   ensures[unlock; C13 C18] txn == 0
+//@   loop 1 invariant txn == 1 && (batch == nil || fresh(batch))
+//@   loop 1 decreases len(rows) - rangeindex
+
+//@ func EvaluateUpdate(q sql.UpdateStatementSearched, rm RelationManager) error
+//@   props C01 C02 C13 C14 C18
+//@   requires txn == 0 && rm != nil && (q.Where == nil || typeof(q.Where) == typ(sql.WhereClause))
+//@   modifies txn, storeState
+//@   ensures[unlock; C13 C18] txn == 0
+//@   loop 1 invariant txn == 1
+//@   loop 2 invariant txn == 1 && (cols == nil || fresh(cols)) && (updateSrc == nil || fresh(updateSrc))
+//@   loop 3 invariant txn == 1 && (batch == nil || fresh(batch))
